@@ -34,6 +34,7 @@ def dispatch (op : String) : Option (List String → String) :=
   | "c06" => some c06Op
   | "lit" => some litOp
   | "findapi" => some findApiOp
+  | "law" => some lawOp
   | "c07r" => some c07rOp
   | "c08" => some c08Op
   | "c09" => some c09Op
